@@ -10,6 +10,9 @@ package dagcbor
 //@ func uintLength(ii) (n)
 //@   loop 0 unroll 5
 //@   assigns nothing
+//   ... which is the number of bytes refmt's head emitter writes for the same argument (cbor.hlen is the
+//   spec function the emitter itself is verified against, /verif/contracts/external/refmt_cbor.vspec)
+//@   ensures[C02] n == cbor.hlen(ii)
 //@   ensures[C02] ii < 24 ==> n == 1
 //@   ensures[C02] 24 <= ii && ii < 256 ==> n == 2
 //@   ensures[C02] 256 <= ii && ii < 65536 ==> n == 3
